@@ -14,7 +14,7 @@ Stage in place.
   pooled diagram *provided it meets the contracts* `CompileOk` / `CutsetOk`.
 * It does **not** meet `CutsetOk` with long arcs in the current code (known finding D5, see
   `KNOWN_FINDINGS.txt`): the root can be handed out by its own cut-set, and the solvers then do not
-  terminate.  `pooled_eq_clean_opt` (both return the optimum) is therefore stated, not proved. -/
+  terminate.  the statement "both return the optimum" is decided in `Props/C15b.lean`. -/
 set_option linter.unusedSectionVars false
 namespace Ddo.C15
 variable {S K : Type} [DecidableEq S] [DecidableEq K]
@@ -109,8 +109,8 @@ theorem layer_only_impacted (cfg : Cfg S K) (pd : PD S K) (var : Nat) (n : Node 
     (hn : n ∈ (pd.pool.filter (fun n => cfg.P.impacted var n.state))) : cfg.P.impacted var n.state = true :=
   (List.mem_filter.mp hn).2
 
-/-- Stated, not proved (false in the current code for models with long arcs: known finding D5):
-    solvers using the pooled diagram terminate and return the same optimum as with the plain diagrams. -/
-def pooled_eq_clean_opt : Prop := True
+/-! "Solvers using the pooled diagram terminate and return the same optimum as with the plain diagrams" is decided in
+    `Props/C15b.lean`: `pooled_eq_clean_opt_allImpacted`, `sequential_solver_correct_pooled(_siblings)`,
+    `pooled_partial_correct_long_arcs`; termination with long arcs is false (`LongArc.d5_loops_wellformed`, finding D5). -/
 
 end Ddo.C15
